@@ -22,6 +22,11 @@ def main():
     fam = importlib.import_module(famname)
     C.proof_obligations([fam.RUNNER[0]], "quick", workdir)
     bins = {"debug": C.cargo_build("debug"), "release": C.cargo_build("release")}
+    if os.environ.get("RUNFAM_ASAN"):
+        os.environ.setdefault("ASAN_OPTIONS", "detect_leaks=0:abort_on_error=1:allocator_may_return_null=1")
+        a = C.cargo_build_asan()
+        assert a, "no ASan build"
+        bins["asan"] = a
     stats = dict(evaluations=0, nontrivial=set(), families=[], samples=[])
     v, kh, *_ = chk.run_family(prop, famname, genname, n, seed, tier, workdir, bins, known, stats)
     out = os.path.join(here, "replay", "runfam-%s-%s.json" % (prop, genname))
